@@ -904,13 +904,13 @@ def _parser_contract(ty, isop, opx, opz, toks, phase):
     pos = '(j - %s(obj, j))' % toks
     inv = ['len(g) == 2 * len(obj)', 'N == len(obj)', 'h == %s(obj, i)' % toks, '0 <= h <= i', 'p == %s(obj, i)' % phase,
            'forall(j, 0, i, implies(%s(obj[j]) == 1, g[2 * %s] == %s(obj[j]) and g[2 * %s + 1] == %s(obj[j])))' % (isop, pos, opx, pos, opz),
-           'forall(c, 2 * (i - h), len(g), g[c] == 0)']
+           'forall(c, 2 * (i - h), len(g), g[c] == 0)', 'bits1(g)']
     return dict(
         params=[('obj', ty), ('N', 'none')], defaults={'N': None}, requires=[],
         ensures=['len(result.g) == 2 * (%s - %s(obj, %s))' % (n, toks, n),
                  'forall(j, 0, %s, implies(%s(obj[j]) == 1, result.g[2 * %s] == %s(obj[j]) and result.g[2 * %s + 1] == %s(obj[j])))'
                  % (n, isop, pos, opx, pos, opz),
-                 'result.p == %s(obj, %s)' % (phase, n)],
+                 'result.p == %s(obj, %s)' % (phase, n), 'bits1(result.g)'],
         modifies=[], returns=dict(PAULI, exact=False),
         loops={0: dict(var='i', invariant=inv,
                        hints_head=[('forall_lemma', [('j', '0', 'i')], 'toks_mono' + ('' if toks == 'Toks' else '_c'), ['obj', 'j', 'i'])])},
@@ -1079,3 +1079,42 @@ CONTRACTS[PA + 'Pauli.tokenize'] = dict(
              'forall(i, 0, len(self.g) // 2, result[0][i] == TOKEN(self.g[2 * i], self.g[2 * i + 1]))',
              'result[0][len(self.g) // 2] == PHASE_TOKEN(self.p)'],
     modifies=[], returns='int2 fresh')
+
+# ------------------------------------------------------------------ C14 / C05: running a measurement layer backward = post-selecting the record, last qubit first
+# Partial correctness (ValueError: wrong record length, or an impossible record): when it returns, every recorded outcome has been
+# post-selected on a pure valid state and the state is again a pure valid state.
+LEMMAS['toks_zero'] = dict(
+    doc='a code array without prefix symbols: no prefix count, phase 0',
+    params=[('a', 'int1'), ('k', 'int')],
+    requires=['0 <= k <= len(a)', 'forall(j, 0, len(a), 0 <= a[j] <= 3)'],
+    ensures=['Toks(a, k) == 0', 'CodePhase(a, k) == 0'],
+    induction='k',
+)
+MLAYER_B = {'cls': 'MeasureLayer', 'fields': {'qubits': 'int1', 'N': 'int', 'result': 'none', 'log2prob': 'none'}}
+_mb_req = ['self.N == cols(obj.gs) // 2', 'cols(obj.gs) % 2 == 0', 'inv_state(obj.gs, obj.ps, 0, cols(obj.gs) // 2)', 'obj.r == 0',
+           'forall(k, 0, len(self.qubits), 0 <= self.qubits[k] < self.N)']
+_mb_inv = ['inv_state(obj.gs, obj.ps, 0, cols(obj.gs) // 2)', 'obj.r == 0', 'ii >= 1', 'self.N == cols(obj.gs) // 2']
+_mb_hints = [('assert', 'forall(j, 0, len(tmp), 0 <= tmp[j] <= 3)'),
+             ('forall_lemma', [('k', '0', 'len(tmp) + 1')], 'toks_zero', ['tmp', 'k']),
+             ('assert', 'len(arg_paulistring.g) == 2 * len(tmp)'),
+             ('assert', 'arg_paulistring.p == 0'),
+             ('assert', 'bits1(arg_paulistring.g)')]
+CONTRACTS[CI + 'MeasureLayer.backward#record'] = dict(
+    params=[('self', MLAYER_B), ('obj', STATE), ('measure_result', 'int1')],
+    requires=_mb_req + ['forall(k, 0, len(measure_result), measure_result[k] == 1 or measure_result[k] == 0 - 1)'],
+    may_raise=['ValueError'],
+    ensures=['inv_state(obj.gs, obj.ps, 0, cols(obj.gs) // 2)', 'obj.r == 0', 'same_loc(result, obj)'],
+    modifies=['obj.gs', 'obj.ps'], returns='=obj',
+    loops={0: dict(var='ii', invariant=_mb_inv)},
+    hints={'call:obj.postselect#0.before': _mb_hints},
+)
+MLAYER_B2 = {'cls': 'MeasureLayer', 'fields': {'qubits': 'int1', 'N': 'int', 'result': 'int1', 'log2prob': 'none'}}
+CONTRACTS[CI + 'MeasureLayer.backward#own'] = dict(
+    params=[('self', MLAYER_B2), ('obj', STATE), ('measure_result', 'none')], defaults={'measure_result': None},
+    requires=_mb_req + ['forall(k, 0, len(self.result), self.result[k] == 1 or self.result[k] == 0 - 1)', 'len(self.result) <= len(self.qubits)'],
+    may_raise=['ValueError'],
+    ensures=['inv_state(obj.gs, obj.ps, 0, cols(obj.gs) // 2)', 'obj.r == 0', 'same_loc(result, obj)'],
+    modifies=['obj.gs', 'obj.ps'], returns='=obj',
+    loops={1: dict(var='ii', invariant=_mb_inv)},
+    hints={'call:obj.postselect#1.before': _mb_hints},
+)
